@@ -275,7 +275,6 @@ def translate(repo: Path) -> dict:
         self.sha.update(data[:-to_add])
         return data
     """)
-    fps = {q: T.fingerprint(T.find_def(tree, q)) for q in FP_FUNCS}
     d = lambda k, doc: f"/-- {doc} -/\ndef {k} : Nat := {g[k]}\n"
     src = T.lean_header("dulwich/protocol.py: _HEX_DIGITS, _RBUFSIZE, pkt_line, _parse_pkt_line_length, "
                         "Protocol.read_pkt_line/write_sideband, PktLineParser.parse, BufferedPktLineWriter, "
@@ -331,24 +330,47 @@ class Hang(Exception):
 
 
 class time_limit:
-    """Pure-Python code that loops forever is interrupted (SIGALRM) and reported, not waited for."""
+    """Pure-Python code that loops forever is interrupted (SIGALRM -> Hang) and reported, not waited for.
+    Nestable: the enclosing limit's remaining time is restored on exit."""
 
     def __init__(self, sec: float):
         self.sec = sec
 
     def __enter__(self):
         import signal
+        import time
 
         def onalarm(signum, frame):
             raise Hang()
         self.old = signal.signal(signal.SIGALRM, onalarm)
-        signal.setitimer(signal.ITIMER_REAL, self.sec)
+        self.t0 = time.time()
+        self.prev = signal.setitimer(signal.ITIMER_REAL, self.sec)[0]
 
     def __exit__(self, *a):
         import signal
+        import time
         signal.setitimer(signal.ITIMER_REAL, 0)
         signal.signal(signal.SIGALRM, self.old)
+        if self.prev:
+            signal.setitimer(signal.ITIMER_REAL, max(0.01, self.prev - (time.time() - self.t0)))
         return False
+
+
+class Capped(list):
+    """Collector for callbacks of the real code: more items than the input could possibly produce means the
+    producer loops without consuming — stop it instead of filling the memory."""
+
+    def __init__(self, cap: int):
+        super().__init__()
+        self.cap = cap
+
+    def append(self, x):
+        if len(self) >= self.cap:
+            raise Hang()
+        super().append(x)
+
+
+CURRENT = {"case": None}
 
 
 def make_recv(chunks):
@@ -411,11 +433,12 @@ def _classify_exc(e):
 
 
 def read_all_real(proto, limit=1_000_000):
-    """Call read_pkt_line until it raises; canonical output like the driver's."""
+    """Call read_pkt_line until it raises; canonical output like the driver's.  `limit`: more packets than
+    the stream has room for means the reader does not consume its input."""
     out = []
     exc = None
     try:
-        with time_limit(20):
+        with time_limit(10):
             for _ in range(limit):
                 try:
                     pkt = proto.read_pkt_line()
@@ -426,6 +449,8 @@ def read_all_real(proto, limit=1_000_000):
                     exc = e
                     break
                 out.append(show_pkt(pkt))
+            else:
+                out.append("HANG")
     except Hang:
         out.append("HANG")
     return " ".join(out), exc
@@ -433,12 +458,13 @@ def read_all_real(proto, limit=1_000_000):
 
 def real_read_blocking(stream: bytes):
     from dulwich.protocol import Protocol
-    return read_all_real(Protocol(io.BytesIO(stream).read, lambda b: None))
+    return read_all_real(Protocol(io.BytesIO(stream).read, lambda b: None), len(stream) // 4 + 4)
 
 
 def real_read_buffered(chunks):
     from dulwich.protocol import Protocol
-    return read_all_real(Protocol(io.BufferedReader(RawChunks(chunks), buffer_size=rbuf_for(chunks)).read, lambda b: None))
+    return read_all_real(Protocol(io.BufferedReader(RawChunks(chunks), buffer_size=rbuf_for(chunks)).read, lambda b: None),
+                         sum(len(c) for c in chunks) // 4 + 4)
 
 
 def rbuf_for(chunks):
@@ -449,16 +475,16 @@ def rbuf_for(chunks):
 def real_read_rp(chunks, rbufsize=None):
     from dulwich.protocol import ReceivableProtocol
     kw = {} if rbufsize is None else {"rbufsize": rbufsize}
-    return read_all_real(ReceivableProtocol(make_recv(chunks), lambda b: None, **kw))
+    return read_all_real(ReceivableProtocol(make_recv(chunks), lambda b: None, **kw), sum(len(c) for c in chunks) // 4 + 4)
 
 
 def real_parse(chunks):
     from dulwich.protocol import PktLineParser
-    got = []
+    got = Capped(sum(len(c) for c in chunks) // 4 + 4)
     p = PktLineParser(got.append)
     end = None
     try:
-        with time_limit(20):
+        with time_limit(10):
             for c in chunks:
                 try:
                     p.parse(c)
@@ -717,6 +743,7 @@ def _check_decoders(ctx, stream, data: bytes, chunks, ps=None, tag="", exhaustiv
     pend = []
     case = {"stream_hex": hx(data), "chunk_sizes": [len(c) for c in chunks],
             "payload_lens": None if ps is None else [None if p is None else len(p) for p in ps]}
+    CURRENT["case"] = case
     exp_r, first_empty = expect_reader(data, False)
     exp_p = expect_parser(data)
     # 1. plain Protocol over a blocking read (BytesIO) and over a BufferedReader on a short-reading raw stream
@@ -841,7 +868,7 @@ def _stream_parselen(ctx):
             cases.append(bytes(b))
     cases += [b"", b"0", b"00", b"000", b"00000", b"000000", b"0x10", b"-001", b"+001", b" 001", b"001 ", b"0_01", b"1_0",
               b"\n001", b"001\n", "٠٠٠١".encode()[:4], b"\xef\xbc\x91" + b"0"]
-    cases += [rng.randbytes(4) for _ in range(ctx.budget(2000))]
+    cases += [rng.randbytes(4) for _ in range(ctx.budget(5000))]
     cases += [rng.randbytes(rng.choice([1, 2, 3, 5, 8])) for _ in range(ctx.budget(200))]
     outs = ctx.driver.batch([f"c19.parselen {hx(c)}" for c in cases])
     for i, (c, o) in enumerate(zip(cases, outs)):
@@ -867,8 +894,8 @@ def _stream_roundtrip(ctx):
     """Payload sequences (in range for one frame) x random partitions through all decoders."""
     rng = ctx.rng
     pend = []
-    n = ctx.budget(350)
-    nbig = ctx.budget(10, mult=5)
+    n = ctx.budget(1200)
+    nbig = ctx.budget(16, mult=5)
     seqs = [("seq", gen_seq(rng)) for _ in range(n)] + [("big", gen_seq(rng, big_ok=True, maxlen=4)) for _ in range(nbig)]
     # fixed boundary cases of the quantifier: empty, 1 byte, 65515, 65516 bytes; flush/delim mixes
     seqs += [("fixed", s) for s in ([], [None], [b""], [b"a"], [b"", b""], [None, None], [b"a", None, b"", b"b"],
@@ -918,13 +945,13 @@ def _stream_malformed(ctx):
     end), never anything else, for every chunking; plus empty fragments (premature EOF) for the model tie."""
     rng = ctx.rng
     pend = []
-    for _ in range(ctx.budget(500)):
+    for _ in range(ctx.budget(2000)):
         ps = gen_seq(rng, maxlen=4)
         kind, data = mutate_stream(rng, _enc(ps))
         mode, chunks = random_partition(rng, data, frame_boundaries(ps))
         pend += _check_decoders(ctx, "mal", data, chunks, ps=None, tag=f"{kind}")
     # premature EOF from recv (empty fragment) / parse(b""): correspondence only
-    for _ in range(ctx.budget(120)):
+    for _ in range(ctx.budget(300)):
         ps = gen_seq(rng, maxlen=4)
         data = _enc(ps)
         mode, chunks = random_partition(rng, data, frame_boundaries(ps))
@@ -952,7 +979,7 @@ def _stream_rpops(ctx):
     from dulwich.protocol import ReceivableProtocol
     rng = ctx.rng
     lines, meta = [], []
-    for _ in range(ctx.budget(400)):
+    for _ in range(ctx.budget(1500)):
         data = rng.randbytes(rng.choice([0, 1, 5, 20, 60, 200]))
         _, chunks = random_partition(rng, data, [rng.randrange(1, len(data) + 1) for _ in range(3)] if data else [])
         rbufsize = rng.choice([1, 2, 3, 4, 8, 16, 65536])
@@ -961,6 +988,7 @@ def _stream_rpops(ctx):
             ops.append(rng.choice("rv") + str(rng.choice([1, 1, 2, 3, 4, 5, 8, 16, 17, 64])))
         if rng.random() < 0.05:
             ops.insert(rng.randrange(len(ops) + 1), rng.choice(["r0", "v0"]))
+        CURRENT["case"] = {"data": hx(data), "chunks": [len(c) for c in chunks], "ops": ops, "rbufsize": rbufsize}
         p = ReceivableProtocol(make_recv(chunks), lambda b: None, rbufsize=rbufsize)
         outs, pos, ok = [], 0, True
         for op in ops:
@@ -1038,7 +1066,7 @@ def _stream_script(ctx):
     eof() probes never changes the decoded payload sequence."""
     rng = ctx.rng
     lines, meta = [], []
-    for _ in range(ctx.budget(400)):
+    for _ in range(ctx.budget(1500)):
         ps = gen_seq(rng, maxlen=5)
         data = _enc(ps)
         if rng.random() < 0.25:
@@ -1055,6 +1083,7 @@ def _stream_script(ctx):
                 ops.append("s")
             else:
                 ops.append("u:" + rng.choice(["N", "-", "61", hx(rng.randbytes(3)), "30303030"]))
+        CURRENT["case"] = {"stream_hex": hx(data), "ops": ops}
         real = _run_script_real(data, ops)
         lines.append(f"c19.script {hx(data)} {','.join(ops)}")
         meta.append(({"stream_hex": hx(data), "ops": ops}, real))
@@ -1074,7 +1103,7 @@ def _stream_script(ctx):
 
 def _sideband_real(writes):
     from dulwich.protocol import Protocol
-    frames = []
+    frames = Capped(sum(len(b) for _, b in writes) // 30000 + 2 * len(writes) + 8)
     p = Protocol(None, frames.append)
     per = []
     for ch, blob in writes:
@@ -1093,7 +1122,7 @@ def _stream_sideband(ctx):
     sizes_small = [0, 1, 2, 100, 5000]
     sizes_big = [65514, 65515, 65516, 65519, 65520, 65521, 131029, 131030, 131031, 200000]
     scen = []
-    for _ in range(ctx.budget(40)):
+    for _ in range(ctx.budget(80)):
         scen.append([(rng.choice([1, 2, 3]), mk_blob(rng, rng.choice(sizes_small))) for _ in range(rng.randint(1, 5))])
     nb = ctx.budget(6, mult=4)
     for i in range(nb):
@@ -1110,8 +1139,9 @@ def _sideband_cases(ctx, scen, model=True):
     lines, meta = [], []
     for spec_writes in scen:
         writes = [(ch, b) for ch, (spec, b) in spec_writes]
-        frames, per = _sideband_real(writes)
         case = {"writes": [[ch, spec] for ch, (spec, b) in spec_writes]}
+        CURRENT["case"] = case
+        frames, per = _sideband_real(writes)
         for (ch, blob), fr in zip(writes, per):
             lines.append(f"c19.sideband {ch} {hx(blob)}")
             meta.append((dict(case, channel=ch, blob_len=len(blob)), "none" if not fr else " ".join(hx(f) for f in fr)))
@@ -1169,7 +1199,7 @@ def _stream_bufwriter(ctx):
     from dulwich.client import _read_side_band64k_data
     rng = ctx.rng
     scen = []
-    for i in range(ctx.budget(250)):
+    for i in range(ctx.budget(600)):
         big = i % 40 == 0
         bufsize = 65515 if big else rng.choice([1, 4, 5, 6, 9, 12, 16, 33, 100])
         scen.append((bufsize, [mk_blob(rng, rng.choice([0, 1, 2, 3, 5, 8, 13, 30] if not big else [10, 30000, 65000, 65516, 100]))
@@ -1184,7 +1214,8 @@ def _bufwriter_cases(ctx, scen, model=True):
     for bufsize, specs in scen:
         big = bufsize > 1000
         datas = [b for _, b in specs]
-        outs = []
+        CURRENT["case"] = {"bufsize": bufsize, "datas": [sp for sp, _ in specs]}
+        outs = Capped(4 * len(datas) + 8)
         w = BufferedPktLineWriter(outs.append, bufsize=bufsize)
         for d in datas:
             w.write(d)
@@ -1196,14 +1227,14 @@ def _bufwriter_cases(ctx, scen, model=True):
         if b"".join(outs) != b"".join(pkt_line(d) for d in datas):
             ctx.oracle_fail("bufwriter", case, "bytes handed to the underlying writer != concatenated pkt-lines")
         # end to end: writer -> side-band 1 -> wire -> read_pkt_seq -> demux -> PktLineParser
-        frames = []
+        frames = Capped(sum(len(d) + 4 for d in datas) // 30000 + 4 * len(datas) + 8)
         proto = Protocol(None, frames.append)
         w = BufferedPktLineWriter(lambda d: proto.write_sideband(1, d), bufsize=bufsize)
         for d in datas:
             w.write(d)
         w.flush()
         wire = b"".join(frames) + b"0000"
-        got = []
+        got = Capped(len(datas) + 8)
         ps = PktLineParser(got.append)
         try:
             for ch, d in _read_side_band64k_data(Protocol(io.BytesIO(wire).read, None).read_pkt_seq()):
@@ -1265,7 +1296,7 @@ def _stream_caps(ctx):
         except ValueError:
             return "V"
 
-    for i in range(ctx.budget(600)):
+    for i in range(ctx.budget(1500)):
         alpha = rng.choice([A_PLAIN, A_PLAIN, A_FULL, A_WSY])
         sha = bytes(rng.choice(b"0123456789abcdef") for _ in range(rng.choice([40, 64])))
         ref = b"refs/" + gen_token(rng, rng.choice([A_PLAIN, bytes(b for b in range(1, 256) if b != 10)]))
@@ -1338,7 +1369,7 @@ def _stream_trailer(ctx):
     from dulwich.pack import PackStreamReader
     rng = ctx.rng
     lines, meta = [], []
-    for _ in range(ctx.budget(300)):
+    for _ in range(ctx.budget(1000)):
         h = rng.choice([20, 32, 1, 2, 3, 5])
         data = rng.randbytes(rng.choice([0, 1, h - 1, h, h + 1, 2 * h, 2 * h + 1, 100]))
         _, chunks = random_partition(rng, data, [h, len(data) - h, len(data) - h + 1])
@@ -1540,23 +1571,48 @@ def run(ctx: core.Ctx):
         "SP is the capability-list separator: tokens containing SP are excluded from the round-trip domain like NUL/LF",
     ]
     _fingerprints(ctx)
-    _run_corpus(ctx)
-    _stream_prefix(ctx)
-    _stream_parselen(ctx)
-    _stream_exhaustive(ctx)
-    _stream_roundtrip(ctx)
-    _stream_malformed(ctx)
-    _stream_rpops(ctx)
-    _stream_script(ctx)
-    _stream_sideband(ctx)
-    _stream_bufwriter(ctx)
-    _stream_caps(ctx)
-    _stream_trailer(ctx)
-    _stream_oversize(ctx)
-    _stream_gitpeer(ctx)
+    for fn in (_run_corpus, _stream_prefix, _stream_parselen, _stream_exhaustive, _stream_roundtrip, _stream_malformed,
+               _stream_rpops, _stream_script, _stream_sideband, _stream_bufwriter, _stream_caps, _stream_trailer,
+               _stream_oversize, _stream_gitpeer):
+        _guard(ctx, fn)
 
 
-BASE_FP: dict = {}
+def _guard(ctx, fn):
+    """Run one stream; real code that does not terminate (or floods its callback) is a property failure
+    (`every byte string fed to the decoder yields frames or a protocol error`), not a harness hang."""
+    CURRENT["case"] = None
+    import time
+    t0 = time.time()
+    try:
+        with time_limit(1500 if ctx.thorough else 240):
+            fn(ctx)
+        ctx.extra_cov.setdefault("stream_wall_s", {})[fn.__name__.lstrip("_")] = round(time.time() - t0, 2)
+    except Hang:
+        ctx.oracle_fail(fn.__name__.replace("_stream_", "").replace("_run_", ""), CURRENT["case"] or {},
+                        "the real code did not terminate (or produced output without consuming input) on this case")
+
+
+# AST fingerprints (harness.translate.fingerprint) of the anchored functions at the pinned commit
+BASE_FP: dict = {
+    "BufferedPktLineWriter.flush": "afa659ac7aae02c9",
+    "BufferedPktLineWriter.write": "4854ce9bc15a0e1b",
+    "PktLineParser.parse": "b8ed33479fed3835",
+    "Protocol.eof": "fcb49561231e89f7",
+    "Protocol.read_pkt_line": "6cc80f9375c55b25",
+    "Protocol.read_pkt_seq": "4d46a9c4159b185d",
+    "Protocol.unread_pkt_line": "ae91f5b710ecb822",
+    "Protocol.write_pkt_line": "ee4816c7f9f866e8",
+    "Protocol.write_sideband": "ebc6326941719590",
+    "ReceivableProtocol.read": "104ecc6bc69047f3",
+    "ReceivableProtocol.recv": "ad953cd59506e968",
+    "_parse_pkt_line_length": "9ce89cd59bf1d932",
+    "extract_capabilities": "3dbf0bacd4e6dcbc",
+    "extract_want_line_capabilities": "bed0ce48e17f990b",
+    "format_capability_line": "11b7de34ab326e80",
+    "format_ref_line": "e00f20051356f0f1",
+    "pkt_line": "56221ccfda4ee7fd",
+    "pkt_seq": "99360132954749e1",
+}
 
 
 # ------------------------------------------------------------------------------------------------
@@ -1596,10 +1652,7 @@ def search(ctx: core.Ctx):
                    _stream_caps, _stream_rpops, _stream_script, _stream_trailer, _stream_oversize, _stream_parselen,
                    _stream_prefix):
             n0 = len(ctx.disagreements)
-            try:
-                fn(ctx)
-            except core.InfraError:
-                raise
+            _guard(ctx, fn)
             del ctx.disagreements[max(n0, 200):]
             if ctx.oracle_failures:
                 return
